@@ -656,6 +656,23 @@ def d1_use_path_is_the_judged_name(ctx, guard):
                                f'"arraydescription" -> arraydescription.json) passes it and the protected file is written')
             else:
                 ctx.assume('R-FLOW', 'D1', f, j, construct, inst, detail=f'name component `{norm(name)[:50]}` not understood')
+    # a mutating method acts on the names it was given, never on names found by listing / globbing the directory: the
+    # guard judged the argument as given (a pattern is not a protected name, its matches may be)
+    LISTING = ('glob.glob', 'glob.iglob', 'os.listdir', 'os.scandir', 'os.walk', 'fnmatch.filter')
+    LIST_ATTRS = ('glob', 'rglob', 'iterdir')
+    for f in c.all_funcs():
+        muts = [e for e in ctx.E.primitives(f) if e.kind in MUTATING]
+        if not muts:
+            continue
+        lists = [n for n in own_nodes(f.node) if isinstance(n, ast.Call) and
+                 (dotted(n.func) in LISTING or (isinstance(n.func, ast.Attribute) and n.func.attr in LIST_ATTRS))]
+        if lists:
+            n_ob += 1
+            ctx.bad('R-FLOW', 'D1', f, lists[0], f'use-path::{f.name}::listing',
+                    f'{f.qualname}: the files changed are the names given, not names found by listing the directory',
+                    detail=f'`{norm(lists[0])[:60]}` expands the argument against the directory content before {muts[0].kind} '
+                           f'`{norm(muts[0].node)[:40]}`: the guard judged the pattern, the effect hits its matches (a protected '
+                           f'file matched by `*.bin`), and a literal name containing a metacharacter no longer means itself')
     ctx.floor('C20 join sites of DataDir methods', n_ob, 1)
 
 
